@@ -291,19 +291,25 @@ CHECKS["C15"] = dict(
 
 CHECKS["C16"] = dict(
     technique="Integrator arithmetic and statement order regenerated from integrator.py (ast translator T9) and proved to be the model; Coq proofs over any commutative ring / any gradient function / any dimension and step count: the code's leapfrog arrangement = L kick-drift-kick steps, exact reversibility, shear decomposition with unit Jacobian determinant (mathcomp determinants), exact conservation of the modified energy for harmonic targets, Hastings = change of kinetic energy; exact-rational correspondence on Gaussian targets and oracle-gradient correspondence on transformed/phylogenetic targets",
-    text="20 theorems in prop/C16.v: C16_integrator_source_is_model (the integrator assembled, in the statement order of the source, from the "
+    text="24 theorems in prop/C16.v: C16_integrator_source_is_model (the integrator assembled, in the statement order of the source, from the "
          "arithmetic regenerated from LeapfrogIntegrator.__call__ by translator T9 is the model's leapfrog: any number type, mass "
          "matrix, gradient, step count), C16_leapfrog_is_standard, C16_leapfrog_reversible (flip o leapfrog o flip o leapfrog = id for ANY grad), "
          "C16_leapfrog_shear_decomposition, C16_shear_jacobians_det_one / C16_shear_matrices_act_as_shears / C16_volume_preserving_dim1, "
-         "C16_volume_preserving_partial (chain rule over the composition left informal for nonlinear gradients), "
+         "C16_volume_preserving_any_dimension (ANY dimension, ANY Frechet-differentiable gradient, diagonal or dense mass matrix: "
+         "through coordinates the list model is a composition of shears on R^(n+1); it is differentiable at every point, its "
+         "differential is the composition of 2L+2 linear shears with the Hessians taken along the trajectory — the n-dimensional "
+         "chain rule formalised with Coquelicot's filterdiff — and every multiplicative determinant-like functional that is one on "
+         "block shears gives it the value one), C16_leapfrog_differential_any_normed_module, C16_volume_preserving_dim1_frechet "
+         "(genuine 2x2 determinant), C16_coordinates_are_a_bijection, C16_volume_preserving_partial (mathcomp matrices, linear gradients), "
          "C16_energy_error_harmonic (O(eps^2) for all L on quadratic potentials), C16_energy_error_partial (general targets: not proved), "
          "C16_hmc_hastings_is_dK, C16_acceptance_on_full_hamiltonian, C16_kinetic_even, C16_minv_odd, C16_run_is_model(_gauss/_step). "
          "Tie: positions written into the parameters and the returned momentum vs the exact rational run (Gaussian targets, dims 1..8, "
          "diagonal and dense SPD mass matrices, several parameters per operator) and vs the model with the gradient as an oracle table "
          "validated against autograd on a fresh model; geometric identities (forward-flip-forward, autograd Jacobian determinant, energy "
          "error at eps, eps/2, eps/4) evaluated on the implementation.",
-    note="Trusted: Coq kernel; hand-written M_leapfrog.v; gradient oracle tables; general-target O(eps^2) and nonlinear volume "
-         "preservation are partial (implementation-side checks only). " + AX_R,
+    note="Trusted: Coq kernel; hand-written M_leapfrog.v; gradient oracle tables; general-target O(eps^2) is partial "
+         "(implementation-side check only); in dimension > 1 the determinant functional of the nonlinear volume theorem is abstract "
+         "(its identification with the determinant of the matrix of partial derivatives is not formalised). " + AX_R,
     design="§6 C16")
 
 CHECKS["C17"] = dict(
